@@ -257,11 +257,16 @@ def case_convert(rec, case):
     lead = False
     if seedstr is None:
         want_lead = ktype in WIDTH and r.random() < 0.25
+        want_marker = ktype not in WIDTH and r.random() < 0.2
         for t in range(20000):
             seedstr = f"{case['seed']}/{case['n']}/{ktype}/{t}"
             sk, pem = derive(ktype, seedstr)
             if ktype not in WIDTH:
-                break
+                # raw keys that START with a byte that looks like an encoding marker (0x00 / 0x04 point prefix, 0x02/0x03
+                # compressed point prefix, 0x30 SEQUENCE): any prefix stripping would eat real key material
+                if not want_marker or expected_bytes(pem, ktype)[0] in (0x00, 0x02, 0x03, 0x04, 0x30):
+                    break
+                continue
             nums = sk.public_key().public_numbers()
             w = WIDTH[ktype]
             lead = nums.x < (1 << (8 * (w - 1))) or nums.y < (1 << (8 * (w - 1)))
@@ -345,6 +350,10 @@ def case_convert(rec, case):
         rec.count("convert:route:" + route)
         if lead:
             rec.count("convert:leading-zero-coordinate:" + ktype)
+        if want[0] in (0x00, 0x02, 0x03, 0x04, 0x30):
+            rec.count("convert:first-byte-looks-like-a-marker:" + ktype)
+        if ktype in WIDTH and want[WIDTH[ktype]] in (0x00, 0x04):
+            rec.count("convert:y-starts-with-marker-like-byte:" + ktype)
         default_opts = opts["columns"] == 8 and opts["indent"] == 4 and not opts["tab"]
         rec.case(want + repr(sorted(opts.items())).encode(), ktype in WIDTH or not default_opts,
                  sample={"op": "convert", "type": ktype, "key_seed": seedstr, "leading_zero": lead,
@@ -389,6 +398,9 @@ def finish(merged, tier, seed):
     for kt in WIDTH:
         if cnt.get("convert:leading-zero-coordinate:" + kt, 0) == 0:
             merged["inconclusive"].append(f"no {kt} key with a leading zero byte in X or Y was observed")
+    for kt in TYPES:
+        if cnt.get("convert:first-byte-looks-like-a-marker:" + kt, 0) == 0 and kt != "secp521r1":
+            merged["inconclusive"].append(f"no {kt} key whose public key starts with a marker-like byte was observed")
     combos = [k for k in cnt if k.startswith("keys:combo:")]
     if len(combos) < 40:
         merged["inconclusive"].append(f"only {len(combos)} of 40 keys option combinations observed")
